@@ -19,17 +19,17 @@ CHECKS = {
     ),
     "C10": dict(
         text="The real flood is executed on N symbolic non-overlapping events (any input order for small N, pre-sorted for larger N) with symbolic pulsetime and data tags; per path z3 discharges point-wise obligations for a fresh time point and label (cover, per-label cover, new time only in short gaps, short gaps closed, long gaps intact), positivity, non-overlap and input immutability.",
-        note="Trusted: z3, shadows (validated natively per path); timedelta(seconds=pulsetime) exact; ms granularity. N<=3 any order + 4 sorted (quick); N<=4 any order + 6 sorted (thorough).",
+        note="Trusted: z3, shadows (validated natively per path); timedelta(seconds=pulsetime) exact. Whole-millisecond durations: N<=3 any order + 4 sorted (quick); N<=4 any order + 6 sorted (thorough). Microsecond durations (N<=3 quick, 4 thorough): the exact no-overlap / short-gap obligations are recorded known findings (sub-millisecond, DESIGN §8a, KNOWN-FINDING lines, exit 0), their 1 ms-tolerant forms must hold. A float-semantics variant (IEEE rounding) for N=2.",
         ref="§7 C10",
     ),
     "C15": dict(
         text="The real union_no_overlap / _split_event are executed on two symbolic sorted non-overlapping lists; per path z3 discharges: each list-one event returned exactly once unchanged, for each list-two event the uncovered part is returned exactly once (fresh time point), pieces keep data, no two outputs share positive time, covered time is the union, inputs unmodified.",
-        note="Trusted: z3, shadows (validated natively per path). Lists up to 2+2 (quick), 3+3 (thorough); ms granularity.",
+        note="Trusted: z3, shadows (validated natively per path). Whole-millisecond durations: lists up to 2+2, 4+1, 5+1 (quick), 4+4, 6+1 (thorough), zero-length events with the open-interval reading at list-one edges. Microsecond durations (up to 2+1 / 1+2 quick, 2+2 / 3+1 thorough): exact no-overlap / exactly-once are recorded known findings (sub-millisecond, DESIGN §8a), 1 ms-tolerant forms must hold. A float-semantics variant for 1+1.",
         ref="§7 C15",
     ),
     "C16": dict(
         text="The real merge_events_by_keys, chunk_events_by_key, sort_by_*, limit_events, concat, sum_durations and filter_keyvals are executed on symbolic events whose key-presence pattern is explored by forking and whose values are symbolic tags (constant hash, so dict/tuple/list lookups fork on ==); z3 discharges group-partition, exact-sum, run, permutation/order, prefix and complementary-partition obligations on every path.",
-        note="Trusted: z3, shadows (validated natively per path); sum_durations in exact arithmetic; filter_keyvals_regex outside the claim (C regex engine). N<=3..4 quick, N<=4..6 thorough.",
+        note="Trusted: z3, shadows (validated natively per path); sum_durations in exact arithmetic and, for 2 events, under IEEE double rounding (float-semantics variants); filter_keyvals_regex outside the claim (C regex engine). N<=3..4 quick, N<=4..6 thorough.",
         ref="§7 C16",
     ),
     "C19": dict(
